@@ -90,20 +90,36 @@ Section V1.
     destruct (exceptions cf); simpl; auto.
   Qed.
 
+  Lemma process_bot_no_in_rail :
+    forall cf st c m st' tr c' rp,
+      process_bot cf st c m = (st', tr, c', rp) -> Forall (fun e => is_in_rail e = false) tr.
+  Proof.
+    intros cf st c m st' tr c' rp H. destruct (skip st) eqn:Hs.
+    - destruct (process_bot_skip cf st c m Hs) as (st1 & H1 & _). rewrite H1 in H.
+      inversion H; subst. repeat constructor.
+    - apply process_bot_checked in H; [|exact Hs].
+      destruct H as (_ & _ & trO & res & Hr & Hres).
+      apply run_rails_shape in Hr. destruct Hr as (calls & -> & _).
+      destruct res as [m'|r x]; destruct Hres as (-> & _).
+      + apply Forall_app. split; [apply forall_map_mk_out_not_in|repeat constructor].
+      + apply Forall_app. split; [apply forall_map_mk_out_not_in|].
+        unfold block_tail. destruct (exceptions cf); repeat constructor.
+  Qed.
+
   (* ---- dialog / generation ---- *)
 
   Definition is_llm_ev (e : tev) : bool := is_llm e.
 
   Lemma gen_reply_cases :
     forall cf st c um st' tr c' rp,
-      skip st = false -> gen_reply cf st c um = (st', tr, c', rp) ->
+      gen_reply cf st c um = (st', tr, c', rp) ->
       exists pre, Forall (fun e => is_llm e = true) pre /\
         ((exists m, tr = pre ++ [TBot Predefined m; TEmit m] /\ rp = RMsg [m] /\ c' = c /\
                     skip st' = false /\ tidx st' = tidx st)
          \/
          (exists m tr', tr = pre ++ TBot FromLLM m :: tr' /\ process_bot cf st c m = (st', tr', c', rp))).
   Proof.
-    intros cf st c um st' tr c' rp Hs H. unfold TurnV1.gen_reply in H.
+    intros cf st c um st' tr c' rp H. unfold TurnV1.gen_reply in H.
     destruct (dialog cf).
     - destruct (intent_step (tidx st) (llm (tidx st) 0 (mkPrompt KIntent (hist st) um))) as [bi|] eqn:Hi.
       + destruct (predefined bi) as [m|] eqn:Hp.
@@ -158,30 +174,23 @@ Section V1.
   (* nothing after the input stage is an input-rail call; all of the input stage is *)
   Lemma after_input_no_in_rail :
     forall cf st0 c res st' tr rp,
-      skip st0 = false -> after_input cf st0 c res = (st', tr, rp) ->
+      after_input cf st0 c res = (st', tr, rp) ->
       Forall (fun e => is_in_rail e = false) tr.
   Proof.
-    intros cf st0 c res st' tr rp Hs H. unfold TurnV1.after_input in H.
+    intros cf st0 c res st' tr rp H. unfold TurnV1.after_input in H.
     destruct res as [um|r x].
     - match type of H with context[TurnV1.gen_reply _ _ _ _ _ _ _ _ ?a ?b ?c ?d] =>
         destruct (TurnV1.gen_reply vf llm post_general intent_step next_of predefined msg_of refusal a b c d)
           as [[[st2 tr2] c2] rp2] eqn:Hg end.
       inversion H; subst; clear H. constructor; [reflexivity|].
-      apply gen_reply_cases in Hg; [|try destruct (irails cf); simpl; exact Hs].
+      apply gen_reply_cases in Hg.
       destruct Hg as (pre & Hpre & [(m & -> & _)|(m & tr' & -> & Hpb)]).
       + apply Forall_app. split.
         * eapply Forall_impl; [|exact Hpre]. intros [] Ha; simpl in *; try discriminate; reflexivity.
         * repeat constructor.
       + apply Forall_app. split.
         * eapply Forall_impl; [|exact Hpre]. intros [] Ha; simpl in *; try discriminate; reflexivity.
-        * constructor; [reflexivity|].
-          apply process_bot_checked in Hpb; [|try destruct (irails cf); simpl; exact Hs].
-          destruct Hpb as (_ & _ & trO & res & Hr & Hres).
-          apply run_rails_shape in Hr. destruct Hr as (calls & -> & _).
-          destruct res as [m'|r x]; destruct Hres as (-> & _).
-          -- apply Forall_app. split; [apply forall_map_mk_out_not_in|repeat constructor].
-          -- apply Forall_app. split; [apply forall_map_mk_out_not_in|].
-             unfold block_tail. destruct (exceptions cf); repeat constructor.
+        * constructor; [reflexivity|]. eapply process_bot_no_in_rail; eauto.
     - destruct (exceptions cf); inversion H; subst; repeat constructor.
   Qed.
 
@@ -215,7 +224,7 @@ Section V1.
       destruct (TurnV1.gen_reply vf llm post_general intent_step next_of predefined msg_of refusal a b c d)
         as [[[st2 tr2] c2] rp2] eqn:Hg end.
     inversion H; subst; clear H.
-    apply gen_reply_cases in Hg; [|try destruct (irails cf); simpl; exact Hs].
+    apply gen_reply_cases in Hg.
     destruct Hg as (pre & Hpre & [(m & -> & -> & _ & Hsk & _)|(m & tr' & -> & Hpb)]).
     - split; [exact Hsk|]. exists pre. split; [exact Hpre|]. left. exists m. auto.
     - apply process_bot_checked in Hpb; [|try destruct (irails cf); simpl; exact Hs].
